@@ -21,9 +21,11 @@ def wfc_element_type_match(facts):
             # the verified parser mentions stag and etag; the predicate compares
             names = {str(m.get("path", "")) for m in walk(n["args"][0]) if m.get("k") == "Path"}
             if "xml_parser::stag" in names and "xml_parser::etag" in names:
-                for m in walk(n["args"][1]):
-                    if m.get("k") == "Binary" and m["op"] in ("==", "!="):
-                        return True, "verify(tuple((stag, content, etag)), |..| %s)" % m["op"]
+                bins = [m for m in walk(n["args"][1]) if m.get("k") == "Binary"]
+                if len(bins) == 1 and bins[0]["op"] == "==":
+                    return True, "verify(tuple((stag, content, etag)), |..| ==)"
+                if bins:
+                    return False, "the predicate that compares the names of start and end tag is not a single equality (operators %s)" % [b["op"] for b in bins]
     return False, "no equality test between the names of stag and etag in xml_parser::element"
 
 
@@ -35,18 +37,54 @@ def wfc_etag_keeps_name(facts):
 
 
 def wfc_unique_att(facts):
+    """Unique Att Spec: every attribute is compared with *all* attributes before it (or entered into a set), by its whole
+    name.  Comparing neighbours only (windows(2)) misses a='1' b='2' a='3'; comparing local parts only refuses a:id next
+    to b:id, which is well-formed."""
+    import staleidx
     f = facts.fn("xml_info::XmlElement::node")
-    # a comparison of attribute names with an error return, before the attribute is pushed
-    for n in walk(f["body"]):
-        if n.get("k") == "If":
-            cond_has_cmp = any((m.get("k") == "Binary" and m["op"] in ("==", "!=")) or
-                               (m.get("k") in ("Call", "MethodCall") and "equal_qname" in str(m.get("path", m.get("f", {}).get("path", ""))))
-                               for m in walk(n["cond"]))
-            mentions_attr = any(m.get("k") == "Field" and m["name"] in ("attributes", "name") for m in walk(n["cond"]))
-            returns_err = any(m.get("k") == "Ret" for m in walk(n["then"]))
-            if cond_has_cmp and mentions_attr and returns_err:
-                return True, "duplicate test with early Err in XmlElement::node"
-    return False, "no pairwise comparison of attribute names with an error exit in XmlElement::node"
+    seq = staleidx._walk_parents(f["body"])
+    for i, (n, pi, slot) in enumerate(seq):
+        if n.get("k") != "If" or not any(m.get("k") == "Ret" for m in walk(n["then"])):
+            continue
+        cond = n["cond"]
+        quant = [m for m in walk(cond) if m.get("k") == "MethodCall" and m["m"] in ("any", "contains", "position", "find", "insert")
+                 and any(x.get("k") == "Field" and x.get("name") in ("attributes", "name") for x in walk(m))]
+        if not quant:
+            continue
+        q = quant[0]
+        chain = []
+        r = q
+        while isinstance(r, dict) and r.get("k") == "MethodCall":
+            chain.append(r["m"])
+            r = r.get("recv")
+        if any(c in ("windows", "chunks", "zip", "last", "first", "chunks_exact") for c in chain):
+            return False, "attribute names are compared with %s(): only neighbouring attributes meet, a duplicate with another attribute in between passes" % \
+                [c for c in chain if c in ("windows", "chunks", "zip", "last", "first", "chunks_exact")][0]
+        # inside a loop over the attributes
+        k = pi
+        in_loop = False
+        while k is not None:
+            if seq[k][0].get("k") in ("Loop",) or (seq[k][0].get("k") == "Match" and seq[k][0].get("src") == "ForLoop"):
+                in_loop = True
+            k = seq[k][1]
+        if not in_loop and q["m"] != "insert":
+            return False, "the duplicate test is not made for every attribute (no enclosing loop)"
+        # the key: whole names
+        if q["m"] in ("any", "position", "find") and q.get("args") and q["args"][0].get("k") == "Closure":
+            body = q["args"][0]["body"]
+            cmps = [m for m in walk(body) if m.get("k") == "Binary" and m["op"] in ("==", "!=")]
+            if len(cmps) != 1:
+                return False, "the duplicate test does not consist of one comparison of names"
+            sides = [cmps[0]["a"], cmps[0]["b"]]
+            def whole(x):
+                while x.get("k") in ("AddrOf", "Deref", "Unary"):
+                    x = x.get("a") or x.get("e")
+                return x.get("k") == "Field" and x.get("name") == "name" and "AttributeName" in str(x.get("ty", ""))
+            if not all(whole(x) for x in sides):
+                return False, "attribute names are compared by a part of the name (%s): attributes with equal local parts and different " \
+                              "prefixes are refused as duplicates" % [x.get("k") + ":" + str(x.get("name") or x.get("m") or "") for x in sides]
+        return True, "each attribute is compared with all earlier ones by its whole name; early Err"
+    return False, "no comparison of every attribute name with the earlier ones and an error exit in XmlElement::node"
 
 
 def wfc_legal_char(facts):
